@@ -43,7 +43,7 @@ def instances(c: Contract):
 def contracts_by_key():
     d = {}
     for k, c in REGISTRY.items():
-        if k.endswith('@setter'):
+        if k.endswith('@setter') or getattr(c, 'tag', None):
             continue
         d[c.key] = c
     return d
@@ -58,7 +58,8 @@ class Task:
         self.label = label
         self.index = get_index()
         self.info = self.index.find(c.relfile, c.qualname, c.which)
-        self.name = f'{c.key}' + (f'@{c.which}' if c.which else '') + (f'[{label}]' if label else '')
+        self.name = f'{c.key}' + (f'@{c.which}' if c.which else '') + (f'#{c.tag}' if getattr(c, 'tag', None) else '') \
+            + (f'[{label}]' if label else '')
         self.ctx = Ctx(self.name)
         cs = contracts_by_key()
         ns = dict(SPEC_NS)
@@ -70,7 +71,7 @@ class Task:
             pass
         self.ip = Interp(self.ctx, self.index, cs, ns)
         self.ip.active_contract = c
-        if c.which == 'setter':
+        if c.which == 'setter' or getattr(c, 'tag', None):
             # loop contracts etc. are looked up by key: make this contract the one for its key
             cs[c.key] = c
 
